@@ -13,7 +13,8 @@ SEEDS = st.integers(0, 2 ** 32 - 1)
 
 ELEMENTS = ["C", "N", "O", "S", "P", "B", "F", "Na", "CL", "CA", "W"]
 RESNAMES = ["ALA", "GLY", "BMIM", "BF4", "SOL", "POPC", "VTE", "DPS", "CUR", "LYS",
-            "R1", "A", "X9Z", "MOL", "CHOLE", "DPPCX"]          # incl. five-character names (the .gro limit)
+            "R1", "A", "X9Z", "MOL", "CHOLE", "DPPCX",          # incl. five-character names (the .gro limit)
+            "2MA", "MA", "3HB", "1", "ala", "Ala"]              # names starting with (or made of) digits, case twins
 
 
 # ------------------------------------------------------------------ rotations
@@ -263,10 +264,23 @@ def line_geometry(n, cls, rng, scale=0.125):
 
 
 # ------------------------------------------------------------------ names
+NAME_STYLES = ["plain", "plain", "plain", "h-like", "repeated", "wide", "digit-first", "case"]
+
+
 @st.composite
-def atom_names(draw, n, hydrogens="some", unique=True):
-    """Atom names containing a letter (the element is the first alphabetic run).
-    hydrogens: none | some | many"""
+def atom_names(draw, n, hydrogens="some", unique=True, style=None):
+    """Atom names containing a letter (the element is the first alphabetic run; an atom is a hydrogen when that run
+    is exactly "H").  hydrogens: none | some | many.
+    style (drawn when None): what the TEXT of the names looks like -
+      plain        C1 N2 H3 ...
+      h-like       hydrogens written H3 / 3H / H; heavy atoms with names that merely start with or contain an H
+                   (HA3 HO3 Hg3 CH3 OH3 NH3)
+      repeated     the number is taken modulo 2: names repeat inside a residue
+      wide         five-character names (the .gro column width): C0001
+      digit-first  1C 2N 3H
+      case         names that differ only in case (CA1 / Ca1 / ca1)"""
+    if style is None:
+        style = draw(st.sampled_from(NAME_STYLES))
     names = []
     for k in range(n):
         if hydrogens == "none":
@@ -276,7 +290,25 @@ def atom_names(draw, n, hydrogens="some", unique=True):
         else:
             isH = draw(st.integers(0, 3)) == 0
         el = "H" if isH else draw(st.sampled_from(ELEMENTS))
-        names.append("%s%d" % (el, k + 1) if unique or draw(st.booleans()) else el)
+        num = k + 1
+        if style == "h-like":
+            if isH:
+                nm = draw(st.sampled_from(["H%d", "%dH", "H%d", "H"])).replace("%d", str(num)) if True else None
+            else:
+                nm = draw(st.sampled_from(["HA", "HO", "Hg", "CH", "OH", "NH", "C", "O"])) + str(num)
+        elif style == "repeated":
+            nm = "%s%d" % (el, num % 2 + 1)
+        elif style == "wide":
+            nm = ("%s%04d" % (el, num))[:5] if len(el) == 1 else ("%s%03d" % (el, num))[:5]
+        elif style == "digit-first":
+            nm = "%d%s" % (num % 100, el)
+        elif style == "case":
+            nm = draw(st.sampled_from([el.upper(), el.lower(), el.capitalize()])) + str(num % 3 + 1)
+            if isH:
+                nm = "H%d" % num
+        else:
+            nm = "%s%d" % (el, num) if unique or draw(st.booleans()) else el
+        names.append(nm[:5])
     return names
 
 
@@ -326,7 +358,14 @@ def mol_topology(draw, name, n, kinds=("tree", "chain", "star", "cyclic"),
     spec = {"name": name, "graph": kind, "edges": edges,
             "residues": split_residues_spec(names, rns, sizes,
                                             draw(st.integers(1, 900)))}
-    if resid_mode == "arbitrary" and len(sizes) > 1 and draw(st.booleans()):
+    if len(sizes) > 1 and draw(st.integers(0, 7)) == 0:
+        # two neighbouring residues whose (number, name) pairs differ but read the same once glued together:
+        # 1 + "2MA" and 12 + "MA"
+        k = draw(st.integers(0, len(sizes) - 2))
+        a, b = (("2MA", 1), ("MA", 12)) if draw(st.booleans()) else (("MA", 12), ("2MA", 1))
+        spec["residues"][k][0], spec["residues"][k][1] = a
+        spec["residues"][k + 1][0], spec["residues"][k + 1][1] = b
+    elif resid_mode == "arbitrary" and len(sizes) > 1 and draw(st.booleans()):
         # residue numbers need not be consecutive nor unique inside a molecule (two chains
         # numbered 1..n, 1..m): only neighbours must differ in (name, number)
         prev = None
